@@ -34,6 +34,8 @@ DECIDED_R7 = ('Round 7: fixed-width windows reject only after a length test; byt
 DECIDED = DECIDED + ' ' + DECIDED_R7
 DECIDED_R8 = ('Round 8: the short-window rule knows startswith(<K >= 2 bytes>); premise C05.f; resets and write-back of the delimiter state may be one assignment per field.')
 DECIDED = DECIDED + ' ' + DECIDED_R8
+DECIDED_R9 = ('Round 9: every window that fits is scanned: `range(.., len(chunk) - tlen + 1, tlen)` / `end > len(chunk)` strict, decided on linear forms (c); the delimiter state may be written path by path (c).')
+DECIDED = DECIDED + ' ' + DECIDED_R9
 NOT_DECIDED = ('that these are the *only* sources of split dependence: equality of the markup over all divisions of all bodies is '
                'an equivalence of runtime values (e.g. absolute-offset arithmetic of the first section when the opening '
                'delimiter itself is cut is not decided).')
